@@ -46,3 +46,174 @@ Theorem C16_fixed_radius_sufficient :
   rm + delta <= racc.
 Proof. exact fixed_radius_sufficient. Qed.
 Print Assumptions C16_fixed_radius_sufficient.
+
+(* ====================================================================================================================
+   The accessors AS CODED (Access/AccessCoded.v: executable model on Flocq binary64 and limb-aligned GMP floats, extracted to
+   bin/access and compared bit for bit with the real functions on every run of the check; proofs in Access/AccessCodedProps.v).
+   mpfR / rdpeR: real value of an mpf / a DPE number; rad_wf: normalised non-negative DPE radius; mpc_wf: both components
+   hold at most precision+1 limbs (GMP's own invariant) at the same precision >= 2 limbs.
+   ==================================================================================================================== *)
+Require Import MPSV.Access.AccessCoded MPSV.Access.AccessCodedProps.
+From Coq Require Import ZArith Lia Lra.
+From Flocq Require Import Core BinarySingleNaN.
+Local Open Scope R_scope.
+
+(* 1. mps_context_get_roots_d, every phase, every stored state: float phase hands out the stored pair itself; after a dpe or
+   mp phase, whenever the radius handed out is finite the value is finite, the radius is positive and the pair satisfies the
+   premise of C16_round_disc against the stored pair (each double operation of the radius expression rounded to nearest,
+   DBL_MIN term, ldexp with its clamp/underflow/overflow, truncation of mpf_get_d, cplx_mod as coded in mt.c). *)
+Theorem C16_get_roots_d_inclusion :
+  forall (ph : phase) (a : approx),
+  state_wf ph a ->
+  let v := get_roots_d_value ph a in
+  let r := get_roots_d_radius ph a in
+  match ph with
+  | PhFloat => v = a_fvalue a /\ r = a_frad a
+  | _ => is_finite r = true ->
+         is_finite (fst v) = true /\ is_finite (snd v) = true /\ 0 < B2R r /\
+         acc_premise (stored_re ph a) (stored_im ph a) (stored_rad ph a) (B2R (fst v)) (B2R (snd v)) (B2R r)
+  end.
+Proof. exact get_roots_d_inclusion. Qed.
+Print Assumptions C16_get_roots_d_inclusion.
+
+(* acc_premise is the hypothesis of C16_round_disc *)
+Theorem C16_acc_premise_round_disc :
+  forall zr zi rs ar ai ra x y : R,
+  0 <= rs -> acc_premise zr zi rs ar ai ra ->
+  (x - zr) * (x - zr) + (y - zi) * (y - zi) <= rs * rs ->
+  (x - ar) * (x - ar) + (y - ai) * (y - ai) <= ra * ra.
+Proof. intros zr zi rs ar ai ra x y H0 [H1 H2] H3. exact (round_disc x y zr zi rs ar ai ra H0 H1 H2 H3). Qed.
+Print Assumptions C16_acc_premise_round_disc.
+
+(* non-vacuity: an mp-phase state (value 2^64 + 1 + 3i on 128 bits, radius 2^-100) with a finite radius handed out *)
+Definition c16_half : b64 := @B754_finite 53 1024 false 4503599627370496 (-53) eq_refl.
+Definition c16_state : approx :=
+  MkApprox (fzero, fzero) ((fzero, 0%Z), (fzero, 0%Z)) (MkMpf 3 (2 ^ 64 + 1) 0, MkMpf 3 3 0) fzero (c16_half, (-99)%Z) 128 0 0 0 true.
+Example c16_state_nonvacuous :
+  state_wf PhMp c16_state /\ mpc_wf (a_mvalue c16_state) /\ is_finite (get_roots_d_radius PhMp c16_state) = true.
+Proof.
+assert (H : B2R c16_half = / 2) by (unfold B2R, c16_half, F2R; simpl; lra).
+split; [|split].
+- unfold state_wf, rad_wf, rdpe_wf, c16_state. simpl fst. rewrite H, Rabs_pos_eq by lra.
+  repeat split; try lra; try reflexivity.
+- unfold mpc_wf, mpf_wf, c16_state; simpl. repeat split; try lia; vm_compute; discriminate.
+- vm_compute. reflexivity.
+Qed.
+
+(* 2. the multiprecision accessors: mps_context_get_roots_m (library-allocated or the caller's variables of ANY precision),
+   mps_approximation_get_mvalue: mpc_set_prec to the stored precision FIRST, then mpc_set: the stored value comes back bit for
+   bit at the stored precision, with the stored radius: the handed-out pair IS the stored pair (enough bits: all of them). *)
+Theorem C16_get_roots_m_exact :
+  forall (a : approx) (caller : option mpc) (out : mpc),
+  mpc_wf (a_mvalue a) ->
+  get_roots_m a caller = (a_mvalue a, a_drad a) /\ approximation_get_mvalue a out = a_mvalue a.
+Proof.
+intros a caller out W. unfold get_roots_m, approximation_get_mvalue.
+rewrite !(get_mvalue_into_exact _ _ W). split; reflexivity.
+Qed.
+Print Assumptions C16_get_roots_m_exact.
+(* the well-formedness hypothesis is needed (precision field lowered below the size in use by mpc_set_prec_raw) *)
+Example C16_get_roots_m_needs_wf :
+  let m := (MkMpf 2 (2 ^ 192 + 1) 0, MkMpf 2 0 0) in
+  mp_man (fst (get_mvalue_into (mpc_init2 64) m)) = (2 ^ 128)%Z /\ mp_exp (fst (get_mvalue_into (mpc_init2 64) m)) = 1%Z.
+Proof. exact get_mvalue_into_needs_wf. Qed.
+
+(* 3. mps_context_get_approximations / mps_approximation_copy: (mvalue, drad) of the copy is the stored multiprecision pair
+   bit for bit whatever s->mpwp is; (fvalue, frad) satisfies the premise of the rounding lemma against it whenever frad is
+   finite, and frad is never 0. *)
+Theorem C16_get_approximation_inclusion :
+  forall (mpwp : Z) (a : approx),
+  mpc_wf (a_mvalue a) -> rad_wf (a_drad a) ->
+  let g := get_approximation mpwp a in
+  a_mvalue g = a_mvalue a /\ a_drad g = a_drad a /\
+  (is_finite (a_frad g) = true ->
+     is_finite (fst (a_fvalue g)) = true /\ is_finite (snd (a_fvalue g)) = true /\ 0 < B2R (a_frad g) /\
+     acc_premise (mpfR (fst (a_mvalue a))) (mpfR (snd (a_mvalue a))) (rdpeR (a_drad a))
+                 (B2R (fst (a_fvalue g))) (B2R (snd (a_fvalue g))) (B2R (a_frad g))).
+Proof. exact get_approximation_inclusion. Qed.
+Print Assumptions C16_get_approximation_inclusion.
+
+Theorem C16_approximation_copy_fields :
+  forall (mpwp : Z) (a : approx),
+  mpc_wf (a_mvalue a) ->
+  let c := approximation_copy mpwp a in
+  a_mvalue c = a_mvalue a /\ a_drad c = a_drad a /\ a_frad c = a_frad a /\ a_fvalue c = a_fvalue a /\
+  a_dvalue c = a_dvalue a /\ a_wp c = a_wp a /\ a_status c = a_status a /\ a_attrs c = a_attrs a /\ a_incl c = a_incl a /\
+  a_again c = true.
+Proof. exact approximation_copy_fields. Qed.
+Print Assumptions C16_approximation_copy_fields.
+
+(* ... but the (dvalue, drad) pair of mps_context_get_approximations is NOT an inclusion of the stored pair: dvalue keeps 53
+   bits of mvalue and is handed out with the multiprecision radius.  The witness (mvalue = 2^64 + 1, drad = 0) is replayed on
+   the real code by the check (known finding no-root-in-disc:get_approximations.dvalue+drad:mp). *)
+Theorem C16_get_approximation_dvalue_refuted :
+  exists a : approx,
+    mpc_wf (a_mvalue a) /\ rad_wf (a_drad a) /\
+    let g := get_approximation 128 a in
+    ~ acc_premise (mpfR (fst (a_mvalue a))) (mpfR (snd (a_mvalue a))) (rdpeR (a_drad a))
+                  (rdpeR (fst (a_dvalue g))) (rdpeR (snd (a_dvalue g))) (rdpeR (a_drad g)).
+Proof. exact get_approximation_dvalue_refuted. Qed.
+Print Assumptions C16_get_approximation_dvalue_refuted.
+
+(* 4. mps_copy_roots / mps_restore_data: after mps_copy_roots the multiprecision pair (mvalue, drad) IS the pair of the last
+   phase (exact conversions), at a well-formed precision; mps_restore_data (mpc_set_prec_raw to data_prec_max) changes no value
+   and keeps the state well-formed as long as data_prec_max covers the limbs in use. *)
+Theorem C16_copy_roots_float :
+  forall a : approx,
+  is_finite (fst (a_fvalue a)) = true -> is_finite (snd (a_fvalue a)) = true -> is_finite (a_frad a) = true ->
+  let st := copy_roots PhFloat a in
+  mpfR (fst (a_mvalue st)) = B2R (fst (a_fvalue a)) /\ mpfR (snd (a_mvalue st)) = B2R (snd (a_fvalue a)) /\
+  rdpeR (a_drad st) = B2R (a_frad a) /\ rdpe_wf (a_drad st) /\ mpc_wf (a_mvalue st) /\
+  a_fvalue st = a_fvalue a /\ a_frad st = a_frad a.
+Proof. exact copy_roots_float. Qed.
+Print Assumptions C16_copy_roots_float.
+
+Theorem C16_copy_roots_dpe :
+  forall a : approx,
+  is_finite (fst (fst (a_dvalue a))) = true -> is_finite (fst (snd (a_dvalue a))) = true ->
+  let st := copy_roots PhDpe a in
+  mpfR (fst (a_mvalue st)) = rdpeR (fst (a_dvalue a)) /\ mpfR (snd (a_mvalue st)) = rdpeR (snd (a_dvalue a)) /\
+  a_drad st = a_drad a /\ mpc_wf (a_mvalue st) /\ a_dvalue st = a_dvalue a.
+Proof. exact copy_roots_dpe. Qed.
+Print Assumptions C16_copy_roots_dpe.
+
+Theorem C16_restore_data :
+  forall (dpm : Z) (a : approx),
+  (mpfR (fst (a_mvalue (restore_data dpm a))) = mpfR (fst (a_mvalue a)) /\
+   mpfR (snd (a_mvalue (restore_data dpm a))) = mpfR (snd (a_mvalue a)) /\
+   a_drad (restore_data dpm a) = a_drad a /\ a_fvalue (restore_data dpm a) = a_fvalue a /\
+   a_dvalue (restore_data dpm a) = a_dvalue a /\ a_frad (restore_data dpm a) = a_frad a) /\
+  (dpm <> 0%Z ->
+   (limbs (mp_man (fst (a_mvalue a))) <= bits_to_prec dpm + 1)%Z ->
+   (limbs (mp_man (snd (a_mvalue a))) <= bits_to_prec dpm + 1)%Z ->
+   mpc_wf (a_mvalue (restore_data dpm a))).
+Proof. intros dpm a. split; [exact (restore_data_value dpm a)|exact (restore_data_wf dpm a)]. Qed.
+Print Assumptions C16_restore_data.
+
+(* 5. end to end, for every phase and every stored pair of that phase (phase_ok: finite doubles / normalised DPE numbers /
+   GMP-well-formed mpc, non-negative radius): after mps_copy_roots,
+   - mps_context_get_roots_m (library-allocated or any caller storage) hands out exactly the stored pair;
+   - mps_context_get_approximations hands out (mvalue, drad) = the stored pair and, when frad is finite, (fvalue, frad) finite,
+     frad > 0 and satisfying the premise of the rounding lemma against the stored pair;
+   - mps_context_get_roots_d, when its radius is finite, hands out a finite value satisfying the premise (radius > 0 after a
+     dpe or mp phase; after the float phase the pair is the stored pair itself, so radius 0 only with the exact value). *)
+Theorem C16_accessors_after_copy_roots :
+  forall (ph : phase) (a : approx) (caller : option mpc) (mpwp : Z),
+  phase_ok ph a ->
+  let st := copy_roots ph a in
+  let m := get_roots_m st caller in
+  let g := get_approximation mpwp st in
+  (mpfR (fst (fst m)) = stored_re ph a /\ mpfR (snd (fst m)) = stored_im ph a /\ rdpeR (snd m) = stored_rad ph a) /\
+  (mpfR (fst (a_mvalue g)) = stored_re ph a /\ mpfR (snd (a_mvalue g)) = stored_im ph a /\ rdpeR (a_drad g) = stored_rad ph a) /\
+  (is_finite (a_frad g) = true ->
+     is_finite (fst (a_fvalue g)) = true /\ is_finite (snd (a_fvalue g)) = true /\ 0 < B2R (a_frad g) /\
+     acc_premise (stored_re ph a) (stored_im ph a) (stored_rad ph a) (B2R (fst (a_fvalue g))) (B2R (snd (a_fvalue g))) (B2R (a_frad g))) /\
+  (is_finite (get_roots_d_radius ph st) = true ->
+     is_finite (fst (get_roots_d_value ph st)) = true /\ is_finite (snd (get_roots_d_value ph st)) = true /\
+     (ph <> PhFloat -> 0 < B2R (get_roots_d_radius ph st)) /\
+     acc_premise (stored_re ph a) (stored_im ph a) (stored_rad ph a)
+                 (B2R (fst (get_roots_d_value ph st))) (B2R (snd (get_roots_d_value ph st))) (B2R (get_roots_d_radius ph st))).
+Proof. exact accessors_after_copy_roots. Qed.
+Print Assumptions C16_accessors_after_copy_roots.
+Example c16_state_phase_ok : phase_ok PhMp c16_state.
+Proof. destruct c16_state_nonvacuous as (A & B & _). split; [exact B|exact A]. Qed.
